@@ -30,7 +30,7 @@
 From Coq Require Import ZArith List Bool.
 From Emmet Require Import lib.Base lib.StrLit gen.GenLorem model.MarkupTokenizer model.MarkupParser model.MarkupConvert
      model.MarkupLorem model.MarkupResolve model.OutStream model.FormatHtml model.MarkupExpand.
-From Emmet Require Import proofs.LoremProofs proofs.LoremFill proofs.LoremExpand.
+From Emmet Require Import proofs.LoremProofs proofs.LoremFill proofs.LoremExpand proofs.LoremStream.
 Import ListNotations.
 Local Open Scope Z_scope.
 
@@ -43,10 +43,7 @@ Theorem Lorem_randint : forall a b s, a <= b ->
   | LFuel => False
   | LInternal _ => False
   end.
-Proof.
-  intros a b s H. pose proof (randint_spec a b s H) as Hs. unfold randint in *.
-  destruct (b <? a); [destruct Hs|]. destruct s; [reflexivity|exact Hs].
-Qed.
+Proof. exact randint_outcome. Qed.
 Print Assumptions Lorem_randint.
 
 (* sample(arr, count), ANY list and count: min(len(arr), count) entries of arr (none for a negative count), or the
@@ -59,7 +56,7 @@ Theorem Lorem_sample_safe : forall arr count s,
   | LFuel => False
   | LInternal _ => False
   end.
-Proof. intros. pose proof (sample_spec arr count s) as H. destruct (sample arr count s); exact H. Qed.
+Proof. exact sample_outcome. Qed.
 Print Assumptions Lorem_sample_safe.
 
 (* insert_commas(words) on non-empty table words ([good_word]: not empty, first character in the capitalisation
@@ -71,17 +68,14 @@ Theorem Lorem_insert_commas_safe : forall words s, Forall (fun w => good_word w 
   | LFuel => False
   | LInternal _ => False
   end.
-Proof.
-  intros words s Hg. pose proof (insert_commas_spec words s Hg) as H.
-  destruct (insert_commas words s); simpl in *; tauto.
-Qed.
+Proof. exact insert_commas_outcome. Qed.
 Print Assumptions Lorem_insert_commas_safe.
 
 (* every vocabulary of the generated table: >= 30 words, every word (and every word of the common opening, which is not
    empty) non-empty with its first character in the capitalisation table -- COMPLETE sweep; 'latin' is present *)
 Theorem Lorem_vocabularies_ok :
   forallb (fun kv => db_ok (snd kv)) lorem_vocabularies = true /\ assoc_str s_latin lorem_vocabularies <> None.
-Proof. split; [exact vocabularies_ok|exact latin_present]. Qed.
+Proof. exact vocabularies_sweep. Qed.
 Print Assumptions Lorem_vocabularies_ok.
 
 (* THE GENERATOR, for EVERY header (language letters, counts) and EVERY stream: a text with at least one draw consumed,
@@ -99,6 +93,28 @@ Theorem Lorem_generator_safe : forall lang minw maxw common s,
 Proof. exact lorem_text_safe. Qed.
 Print Assumptions Lorem_generator_safe.
 
+(* THE ORACLE IS READ LEFT TO RIGHT.  [streams f]: whenever f returns on a stream, it consumed a prefix [used] of it,
+   and on ANY other continuation of that prefix it returns the same value and leaves exactly that continuation:
+     streams f := forall s v r, f s = LOk v r -> exists used, s = used ++ r /\ forall x, f (used ++ x) = LOk v x.
+   So the text depends only on the draws consumed (the harness hands the model exactly the recorded draws, or more),
+   the fuel the generator derives from the length of the stream influences nothing, and an exhausted stream stays
+   exhausted on every prefix: OutOfFuel means exactly "more draws are needed". *)
+Theorem Lorem_generator_reads_stream : forall lang minw maxw common, streams (lorem_text lang minw maxw common).
+Proof. exact lorem_text_streams. Qed.
+Print Assumptions Lorem_generator_reads_stream.
+
+Theorem Lorem_exhausted_on_every_prefix : forall lang minw maxw common p q,
+  lorem_text lang minw maxw common (p ++ q) = LExhausted -> lorem_text lang minw maxw common p = LExhausted.
+Proof. exact lorem_text_exhausted_prefix. Qed.
+Print Assumptions Lorem_exhausted_on_every_prefix.
+
+(* the same for the pass over a whole forest, hence for expand(): draws that are not consumed do not matter *)
+Theorem Lorem_pass_reads_stream : forall l draws l' rest,
+  lorem_fill_list l draws = LOk l' rest ->
+  exists used, draws = used ++ rest /\ forall other, lorem_fill (used ++ other) l = Ok l'.
+Proof. exact lorem_fill_unread. Qed.
+Print Assumptions Lorem_pass_reads_stream.
+
 (* ---------------------------------------------------------------- (b) (c) the text *)
 (* paragraph(db, word_count, start_with_common) for a table vocabulary and word_count >= 1, any fuel above the length
    of the stream: EXACTLY word_count entries, each a vocabulary word (modulo capitalisation of the first word of a
@@ -112,11 +128,7 @@ Theorem Lorem_paragraph_words : forall db wc common fuel s,
   | LFuel => False
   | LInternal _ => False
   end.
-Proof.
-  intros db wc common fuel s Hdb Hwc Hf. pose proof (paragraph_spec db wc common fuel s Hdb Hwc Hf) as H.
-  destruct (paragraph fuel db wc common s); simpl in *; try tauto.
-  destruct H as [sents [H1 [H2 [H3 [H4 H5]]]]]. split; [|exact H4]. exists sents. auto.
-Qed.
+Proof. exact paragraph_outcome. Qed.
 Print Assumptions Lorem_paragraph_words.
 
 (* the same text as a list of WORDS: the join, by single blanks, of EXACTLY word_count tokens, each a vocabulary
@@ -144,7 +156,7 @@ Proof. vm_compute. repeat split. Qed.
 
 (* the header: 1 <= min <= max, for every header *)
 Theorem Lorem_header_range : forall minw maxw, 1 <= lorem_min minw <= lorem_max minw maxw.
-Proof. intros. split; [apply lorem_min_pos|apply lorem_min_max]. Qed.
+Proof. exact header_range. Qed.
 Print Assumptions Lorem_header_range.
 
 (* (c) + (b) for the node: whenever the generator returns, the text is a paragraph of word_count entries of the
@@ -153,10 +165,7 @@ Print Assumptions Lorem_header_range.
 Theorem Lorem_word_count_in_range : forall lang minw maxw common s t rest,
   lorem_text lang minw maxw common s = LOk t rest ->
   exists db wc, lorem_db lang = Some db /\ lorem_min minw <= wc <= lorem_max minw maxw /\ is_paragraph db wc common t.
-Proof.
-  intros lang minw maxw common s t rest E. pose proof (lorem_text_spec lang minw maxw common s) as H.
-  rewrite E in H. simpl in H. destruct H as [_ H]. exact H.
-Qed.
+Proof. exact lorem_text_result. Qed.
 Print Assumptions Lorem_word_count_in_range.
 
 (* ---------------------------------------------------------------- (d) the node *)
